@@ -146,6 +146,7 @@ func rulesC02(c *Ctx) {
 	R.Rule("R6", "fee limit argument of every pay call = stored FeeReserve or FeeReserve(AmountMsat/1000); backends forward maxFee", 4)
 	R.Rule("R7", "melt quote creation: Amount from the decoded invoice / MPP option, FeeReserve = FeeReserve(Amount) or 0", 3)
 	R.Rule("R8", "every input is counted once: the spent-table insert is a plain INSERT inside one transaction (a repeated secret fails the whole request)", 4)
+	R.Rule("R10", "internal settlement: the melt operation writes a mint quote's state only behind 'the melt quote's invoice equals the mint quote's stored payment request'", 1)
 	R.Rule("R9", "a mint quote becomes PAID only behind stored state == UNPAID and a settled invoice of that quote (shared with C03.R2): a PENDING or ISSUED quote is never re-opened by a poll", 4)
 	c.vocabProblems("R1")
 	c.checkAtomicMultiRow("R8", roleMarkSpent)
@@ -233,6 +234,39 @@ func rulesC02(c *Ctx) {
 			for _, l := range lc.matched {
 				noteFee(l)
 			}
+		}
+	}
+
+	// ---- R10 internal settlement credits a mint quote only for its own invoice
+	if melt != nil && meltQuoteIs != nil {
+		fk := c.P.FuncKey(melt)
+		mintQuoteIs := func(e *Ex) bool {
+			return e != nil && e.K == "call" && e.Idx == 0 && c.dbCallWithRole(e, roleReadMint)
+		}
+		isOwn := func(a, b *Ex) bool {
+			return isField(a, "PaymentRequest") && mintQuoteIs(a.Args[0]) && isField(b, "InvoiceRequest") && meltQuoteIs(b.Args[0])
+		}
+		own := &Cond{Name: "the melt quote's invoice is the mint quote's own payment request", Match: func(f *Fact, _ *Origins) bool {
+			switch f.Kind {
+			case "bool":
+				if f.Pos && (isCall(f.A, "strings.EqualFold") || isCall(f.A, "strings.Compare")) {
+					return isCall(f.A, "strings.EqualFold") && (isOwn(arg(f.A, 0), arg(f.A, 1)) || isOwn(arg(f.A, 1), arg(f.A, 0)))
+				}
+			case "cmp":
+				if f.Pos && f.Op.String() == "==" {
+					return isOwn(f.A, f.B) || isOwn(f.B, f.A)
+				}
+			}
+			return false
+		}}
+		sites := c.roleSites(melt, roleSetMint)
+		if len(sites) == 0 {
+			R.Unresolved("R10", "internal settlement in "+fk, "the melt operation does not write a mint quote state")
+		}
+		for _, s := range sites {
+			ok, why := c.RequireAt(s.Instr, own)
+			R.Check("R10", fk, siteDesc(c, s)+" <= invoice identity", c.P.InstrPos(s.Instr), ok,
+				"a mint quote is credited by a melt only when the melted invoice is that quote's own invoice (the payment hash alone does not identify it: anyone can encode another amount around the same hash)", why)
 		}
 	}
 
